@@ -8,6 +8,7 @@ package main
 
 import (
 	"context"
+	"encoding/json"
 	"fmt"
 	"io"
 	"time"
@@ -170,5 +171,69 @@ func c08NarrowClosureArgs(rep *Report) {
 				rep.addViolation("property", "C08:narrow-closure-args", fmt.Sprintf("a closure declared (int8, uint16) invoked by the callee with (300, 70000): %q under %s but %q under %s — the outcome depends on the serializer", base, baseCfg, got, c.name), desc)
 			}
 		}
+	}
+}
+
+// c08BothMembers: ONE stream envelope that carries a request AND the response to a call of ours (a peer or proxy that
+// coalesces frames; the envelope type allows it): both are handed on — the request is served and our call completes,
+// exactly as if they had arrived in two envelopes or over the message API.
+func c08BothMembers(rep *Report) {
+	rep.Evaluations++
+	rep.Distinct++
+	desc := map[string]any{"suite": "C08-envelope-with-both-members"}
+	side := newSide[json.RawMessage]("V")
+	codec := jsonRaw()
+	ctx, cancel := context.WithCancel(context.Background())
+	defer cancel()
+	pr, pw := io.Pipe()
+	defer pw.Close()
+	dec := codec.NewDecoder(pr)
+	reqs := make(chan string, 8)
+	resps := make(chan string, 8)
+	go side.Reg.LinkStream(ctx,
+		func(m rpc.Message[json.RawMessage]) error {
+			if m.Request != nil {
+				var q struct {
+					Call string `json:"call"`
+				}
+				json.Unmarshal(*m.Request, &q)
+				reqs <- q.Call
+			}
+			if m.Response != nil {
+				resps <- string(*m.Response)
+			}
+			return nil
+		},
+		func(m *rpc.Message[json.RawMessage]) error { return dec(m) },
+		codec.Marshal, codec.Unmarshal, nil)
+	var rem Remote
+	up := false
+	waitFor(func() bool { rem, _, up = side.AnyRemote(); return up })
+	if !up {
+		rep.addViolation("property", "C08:both-members:setup", "link did not come up", desc)
+		return
+	}
+	res := make(chan callResult, 1)
+	go func() { v, err := rem.Gate(context.Background(), 72); res <- callResult{true, v, err} }()
+	var id string
+	select {
+	case id = <-reqs:
+	case <-time.After(watchdog):
+		rep.addViolation("property", "C08:both-members:setup", "the request was never written", desc)
+		return
+	}
+	go fmt.Fprintf(pw, `{"request":{"call":"p1","function":"Echo","args":[1,"x"]},"response":{"call":%q,"value":72,"err":""}}`+"\n", id)
+	select {
+	case r := <-res:
+		if r.err != nil || r.val.(int) != 72 {
+			rep.addViolation("property", "C08:both-members:call", fmt.Sprintf("our call, answered in an envelope that also carries a request, returned (%v, %v)", r.val, r.err), desc)
+		}
+	case <-time.After(2 * time.Second):
+		rep.addViolation("property", "C08:both-members:response-lost", "one stream envelope carried a request and the response to a call of ours: the call is still waiting 2 s later — the response member of the envelope was dropped (the same traffic in two envelopes, or over the message API, completes)", desc)
+	}
+	select {
+	case <-resps:
+	case <-time.After(2 * time.Second):
+		rep.addViolation("property", "C08:both-members:request-lost", "the request member of an envelope with both members was not served", desc)
 	}
 }
